@@ -213,6 +213,13 @@ FIXED_DEFINITIONS = [
     ("compiles", 'pub struct FdMiddle { #[ts(as = "<deep::er::Holder<_, u8> as deep::er::Pick>::Out")] a: String, #[ts(as = "<deep::er::Holder<Option<_>, _> as deep::er::Pick>::Out")] b: bool }'),
     ("compiles", 'pub struct FdGeneric<T> { #[ts(as = "Option<_>")] a: T, #[ts(as = "<deep::er::Holder<_, _> as deep::er::Pick>::Out")] b: Vec<T> }'),
     ("compiles", '#[ts(tag = "t")] pub enum FdTagged { A { #[ts(as = "<Proto as Wire<_>>::Ts")] x: u8 }, B }'),
+    # bounds on type parameters: `decl()` instantiates the type with placeholder types, which have to satisfy every bound a
+    # derivable std trait can put on a parameter (inline bounds, where clauses, bounds implied by the fields' types)
+    ("compiles", 'pub struct FdBoundOrd<K: Ord> { keys: std::collections::BTreeSet<K>, first: Option<K> }'),
+    ("compiles", 'pub enum FdBoundEqHash<T> where T: Eq + std::hash::Hash { Seen(std::collections::HashSet<T>), One(T), Nothing }'),
+    ("compiles", 'pub struct FdBoundAll<K: Copy + Clone + std::fmt::Debug + std::hash::Hash + Eq + PartialEq + Ord + PartialOrd, V: PartialOrd + PartialEq> where V: Clone + std::fmt::Debug { m: std::collections::BTreeMap<K, V>, h: std::collections::HashMap<K, Vec<V>> }'),
+    ("compiles", 'pub struct FdBoundMixed<\'a, K: Ord + \'a, const N: usize, V: Eq = i32>(&\'a [K; N], V);'),
+    ("compiles", '#[ts(tag = "t")] pub enum FdBoundTagged<K: Ord + Copy, V: Eq + std::hash::Hash> { A { k: K }, B { v: V, ks: Vec<K> } }'),
     # a variant has no type of its own that `_` could stand for
     ("either", 'pub enum FdVariantInfer { #[ts(as = "Vec<_>")] A(i32), B }'),
     ("either", 'pub enum FdVariantInferStruct { #[ts(as = "Option<_>")] A { x: i32 }, B }'),
